@@ -49,7 +49,7 @@ def run(prop, tier, seed, known):
     rng = random.Random(seed)
     from ._tag import Fails
     fails = Fails(prop, (('time shift', ('C08',)), ('joint transposition', ('C09',)), ('swap of reference', ('C06',)), ('duration-weighted mean', ('C12', 'C04')),
-                         ('is cut at', ('C12',)), ('raised', ('C14', 'C12'))))
+                         ('is cut at', ('C12',)), ('raised', ('C14', 'C12')), ('perfect', ('C02',))))
     n = 0
     t0 = time.time()
     cache = {}
@@ -141,6 +141,22 @@ def run(prop, tier, seed, known):
                 if bad:
                     fails.append('chord.evaluate[%r] changes from %r to %r when the %s interval [%s, %s] (%s) is cut at %s (ref %s %s, est %s %s)'
                                  % (bad[0], float(got[bad[0]]), float(g2[bad[0]]), side, what[0], what[1], what[3], what[2], ri, rl, ei, el))
+            # C02: an annotation against an exact copy of itself scores 1 under every rule that has something to compare (0 by convention when the
+            # rule's vocabulary excludes every reference chord), also when the annotation has internal gaps between different chords
+            for gi, gl in ((ri, rl), ([iv_ for k_, iv_ in enumerate(ri) if k_ != 1], [l_ for k_, l_ in enumerate(rl) if k_ != 1]) if len(ri) >= 3 else (ri, rl)):
+                n += 1
+                try:
+                    gp = chord.evaluate(np.array(gi), list(gl), np.array(gi).copy(), list(gl))
+                except Exception as ex:
+                    fails.append('chord.evaluate raised %s on a valid input: an annotation against its copy %s %s' % (type(ex).__name__, gi, gl))
+                    continue
+                for rule in RULES:
+                    want_ = 1.0 if any(cmp(rule, l_, l_) >= 0 for l_ in gl) else 0.0
+                    if abs(float(gp[rule]) - want_) > 1e-9:
+                        fails.append('perfect chord estimate: %s = %r, expected %s (annotation %s %s)' % (rule, float(gp[rule]), want_, gi, gl))
+                        break
+                if any(abs(float(gp[k_]) - 1.0) > 1e-9 for k_ in ('underseg', 'overseg', 'seg')):
+                    fails.append('perfect chord estimate: segmentation scores %s (annotation %s %s)' % ([float(gp[k_]) for k_ in ('underseg', 'overseg', 'seg')], gi, gl))
             if len(fails) > 5:
                 break
     bounded = [dict(name='chord.evaluate accuracies == duration-weighted mean of per-label comparisons over the reference span; no score changes when an interval is cut into same-label pieces',
